@@ -285,8 +285,8 @@ class Parser:
         k, _ = self.peek()
         if k == "div":
             self.next()
-            cur = [Mag(1)]
-            cur = [a / b for a in cur for b in self.factor()]
+            f = self.factor()
+            cur = [Mag(1) / b for b in f]
             seen_div = True
         else:
             cur = self.factor()
@@ -297,11 +297,13 @@ class Parser:
                 self.next()
                 if seen_div:
                     self.ambiguous = True   # a/b·c : (a/b)·c or a/(b·c)?
-                cur = [a * b for a in cur for b in self.factor()]
+                f = self.factor()
+                cur = [a * b for a in cur for b in f]
             elif k == "div":
                 self.next()
                 seen_div = True
-                cur = [a / b for a in cur for b in self.factor()]
+                f = self.factor()
+                cur = [a / b for a in cur for b in f]
             else:
                 return cur
 
